@@ -374,6 +374,54 @@ class FixedPoints(LinesPart):
         return lines
 
 
+class BothDirections(Part):
+    name = "one_anonymizer_both_directions"
+    desc = "anonymize_ip_addr on one IpAnonymizer / IpV6Anonymizer object with every order of (anonymize, undo) calls over the same lines and over their images: each call equals the same call on a fresh object"
+
+    def __init__(self, tier, seed):
+        self.tier, self.seed = tier, seed
+
+    def cases(self):
+        return [{"fam": f, "B": B} for f in ("4", "6") for B in (0, 8)]
+
+    def run(self, case):
+        res = Res()
+        m = ipdom.mod()
+
+        def mk():
+            if case["fam"] == "4":
+                return m.IpAnonymizer("saltForTest", preserve_suffix=case["B"])
+            return m.IpV6Anonymizer("saltForTest", preserve_suffix=case["B"])
+
+        toks = (["11.22.33.44", "010.001.002.003", "255.255.255.0", "1.2.3.4.5", "10.1.2.3", "200.7.6.5"] if case["fam"] == "4"
+                else ["2001:db8::1234", "2001:0DB8:0:0::1", "::1", "::", "fe80::1%eth0", "::ffff:11.22.33.44"])
+        lines = ["peer %s x" % t for t in toks] + [" ".join(toks)]
+        fwd_img = [m.anonymize_ip_addr(mk(), ln, False) for ln in lines]
+        und_img = [m.anonymize_ip_addr(mk(), ln, True) for ln in lines]
+        texts = {"orig": lines, "fwd": fwd_img, "und": und_img}
+        steps = [(t, d) for t in ("orig", "fwd", "und") for d in (False, True)]
+        depth = 3
+        for hist in itertools.product(range(len(steps)), repeat=depth):
+            an = mk()
+            res.states += 1
+            for si in hist:
+                tname, undo = steps[si]
+                for ln in texts[tname]:
+                    res.transitions += 1
+                    got = m.anonymize_ip_addr(an, ln, undo)
+                    want = m.anonymize_ip_addr(mk(), ln, undo)
+                    res.evals += 1
+                    if got != want:
+                        res.violation("token-replacement-depends-on-earlier-calls|%s" % case["fam"],
+                                      "history %r: %s of %r gives %r, on a fresh anonymizer %r" % (
+                                          [steps[i] for i in hist], "undo" if undo else "anonymize", ln, got, want), case)
+                        return res
+            res.nt((case["fam"], case["B"], hist))
+        res.out(tuple(fwd_img[:2]))
+        res.samples.append({"case": case, "histories": len(steps) ** depth, "lines": len(lines)})
+        return res
+
+
 def parts(tier, seed):
     return [FixedPoints(tier, seed), V4Tokens(tier, seed), V6Tokens(tier, seed), V6Tails(tier, seed), Contexts(tier, seed),
-            Boundary(tier, seed), LongLines(tier, seed), Columns(tier, seed)]
+            Boundary(tier, seed), LongLines(tier, seed), Columns(tier, seed), BothDirections(tier, seed)]
